@@ -383,6 +383,12 @@ func profileFor0(prop string, r *sim.Rand, i int, quick bool) sim.Profile {
 		if prop == "C04" {
 			p.Whale = i%8 == 5
 		}
+		if prop == "C02" {
+			p.SecondDenom = i%4 == 2 // a second denomination in circulation (fees may be offered in it)
+			if p.SecondDenom {
+				p.HostilePct = 40
+			}
+		}
 		if i%8 == 7 {
 			p.MinStakeRaises = true
 			p.W["govparam"] = 14
